@@ -17,6 +17,10 @@ ALIASING_FUNCS = frozenset((
     'numpy.squeeze', 'numpy.transpose', 'numpy.asfarray'))
 
 
+_LOOPS = {}         # loop summaries of the run being inspected (set by writes())
+_PHI_OPEN = set()
+
+
 def roots(t, depth=0):
     """Set of root descriptors of the storage term t may alias."""
     if depth > 60:
@@ -48,7 +52,21 @@ def roots(t, depth=0):
     if k in ('phi', 'loop'):
         if k == 'loop':
             return roots(t[3], depth + 1) | roots(t[4], depth + 1)
-        return {('fresh',)}
+        # the value a loop variable has at the top of an iteration is what it
+        # had before the loop or what the previous iteration left
+        summary = _LOOPS.get(t[2])
+        pair = summary['vars'].get(t[1]) if summary else None
+        if not pair or (t[1], t[2]) in _PHI_OPEN:
+            return {('fresh',)}
+        _PHI_OPEN.add((t[1], t[2]))
+        try:
+            out = set()
+            for x in pair:
+                if x is not None:
+                    out |= roots(x, depth + 1)
+            return out or {('fresh',)}
+        finally:
+            _PHI_OPEN.discard((t[1], t[2]))
     if k == 'elem':
         return roots(t[1], depth + 1) | element_roots(t[1], depth + 1)
     if k == 'call':
@@ -101,15 +119,32 @@ def element_roots(t, depth=0):
         out |= roots(t[2], depth + 1)
     elif k == 'loop':
         out |= element_roots(t[3], depth + 1) | element_roots(t[4], depth + 1)
+    elif k == 'phi':
+        summary = _LOOPS.get(t[2])
+        pair = summary['vars'].get(t[1]) if summary else None
+        if pair and ('e', t[1], t[2]) not in _PHI_OPEN:
+            _PHI_OPEN.add(('e', t[1], t[2]))
+            try:
+                for x in pair:
+                    if x is not None:
+                        out |= element_roots(x, depth + 1)
+            finally:
+                _PHI_OPEN.discard(('e', t[1], t[2]))
     elif k == 'ite':
         out |= element_roots(t[2], depth + 1) | element_roots(t[3], depth + 1)
     elif k == 'call' and isinstance(t[1], tuple) and t[1][0] == 'attr' and \
             t[1][2] in ('items', 'values', 'keys'):
         out |= element_roots(t[1][1], depth + 1)
     elif k == 'call' and t[1] in ('zip', 'enumerate', 'reversed', 'list', 'tuple',
-                                  'sorted'):
+                                  'sorted', 'dict', 'set', 'copy.copy'):
+        # (a shallow copy is a new outer container around the same elements)
         for a in t[2]:
             out |= element_roots(a, depth + 1) | roots(a, depth + 1)
+    elif k == 'call' and isinstance(t[1], tuple) and t[1][0] == 'attr' and \
+            t[1][2] == 'copy' and not t[2]:
+        out |= element_roots(t[1][1], depth + 1) | roots(t[1][1], depth + 1)
+    elif k == 'copy' and t[1] == 'shallow':
+        out |= element_roots(t[2], depth + 1) | roots(t[2], depth + 1)
     out.discard(('fresh',))
     return out
 
@@ -128,6 +163,8 @@ def interior(t):
 
 def writes(it, kinds=('setattr', 'setitem', 'augassign', 'mutcall', 'delete')):
     """Yield (effect, storage_term, roots) for every store the engine saw."""
+    _LOOPS.clear()
+    _LOOPS.update(it.loops)
     for e in it.effects:
         if e['kind'] not in kinds:
             continue
